@@ -121,6 +121,7 @@ def run_sequence(pystog, cfg, datasets):
             setattr(stog, {"bcoh": "bcoh_sqrd", "btot": "btot_sqrd"}[k_], v_)
             cur[k_] = v_
         rej = None
+        rej_pair = None
         if d.get("rejected_before"):
             # an entry with an unknown function name is offered first; the caller catches the error and carries on
             before = snap(stog)
@@ -131,6 +132,7 @@ def run_sequence(pystog, cfg, datasets):
                 rej = "accepted"
             except ValueError:
                 after = snap(stog)      # (the overall-range bookkeeping xmin/xmax is not part of the stored data)
+                rej_pair = (before, after)
                 rej = "changed" if (after["recip"], after["sq"]) != (before["recip"], before["sq"]) else "clean"
             except Exception as e_:
                 rej = "raised %s" % type(e_).__name__
@@ -139,6 +141,8 @@ def run_sequence(pystog, cfg, datasets):
         sn["mat"] = dict(cur)
         if rej is not None:
             sn["rejected"] = rej
+        if rej_pair is not None:
+            sn["rejected_pre"], sn["rejected_post"] = rej_pair
         snaps.append(sn)
     return stog, snaps
 
